@@ -915,6 +915,11 @@ func symtabInv() bool {
 	})
 }
 
+// specStoredSymbol: the symbol the table itself holds for a name (nil if none).
+func specStoredSymbol(st *SymbolTable, name string) *Symbol {
+	return st.store[name]
+}
+
 // specInSet: membership in a string set.
 func specInSet(m map[string]struct{}, k string) bool {
 	_, ok := m[k]
